@@ -228,6 +228,7 @@ def one_run(cfg, wd, tag, perturb=None, backend="h5", diagnostic=False, progress
     else:
         cls = S.RWMH if not visual else S.RWMH_visual
         kw.update(stepsize=cfg["stepsize"])
+    seed = common.spell_int(seed)          # a seed is a seed, as Python int or as NumPy integer
     smp = cls(seed=seed) if not visual else cls(animate_proposals=(visual == "animate"), seed=seed)
     fname = os.path.join(wd, f"{tag}.{backend}")
     SM = sys.modules["hmclab.Samples"]
